@@ -51,7 +51,8 @@ def parsePieces (s : String) : Option (List (List Nat)) :=
 def sortStrs (l : List String) : List String := l.mergeSort (fun a b => !decide (b < a))
 
 def showImage (s : State Key) : String :=
-  let arts := s.arts.map fun a =>
+  -- concurrent writers finish in schedule order: list the artifacts by id
+  let arts := (s.arts.mergeSort (fun a b => decide (a.1 ≤ b.1))).map fun a =>
     let g := match get s a.1 with | .ok d => "ok:" ++ hex d | .error e => showErr e
     let v := match verify hid s a.1 with | .ok b => toString b | .error e => showErr e
     s!"a{a.1}={g}/{v}/{a.2.size}/{a.2.chunks.length}"
